@@ -10,7 +10,13 @@
                      vector, compared with ==; only get/insert are used, so an association list
                      with first-match lookup is an exact model: iteration order is never observed)
    and finally flat-maps the biconditionals to clauses and pushes the unit clause
-   [tseitin_index - 1].  Clause order and literal order are Vec orders, modelled exactly. *)
+   [tseitin_index - 1].  Clause order and literal order are Vec orders, modelled exactly.
+
+   `to_cnf` is the code AFTER the repair F20 (repo_patches/F20-to-cnf-constants.patch): a constant
+   is an operation without operands (True = And [], False = Or []), and transform_operation
+   treats an empty literal list like any list of length <> 1 (cache lookup, else a fresh variable).
+   `to_cnf_v0` at the end of the file is the code BEFORE the repair (unreachable!() on True/False,
+   panic on an empty operation); it is kept only for the witness theorems K5/K10. *)
 From Coq Require Import List ZArith Bool.
 From DD Require Import Model.Circuit.
 Import ListNotations.
@@ -23,11 +29,11 @@ Definition optype_eqb (a b : optype) : bool :=
 
 Record bicond := mkBic { b_index : Z; b_op : optype; b_lits : list Z }.
 
-(* where `Cnf::from` can panic *)
+(* where `Cnf::from` can panic; the first three only before the repair F20 (to_cnf_v0) *)
 Inductive panic :=
-| PanicTrue        (* NodeType::True  => unreachable!() *)
-| PanicFalse       (* NodeType::False => unreachable!() *)
-| PanicEmptyOp     (* transform_operation: "Attempt to transform empty operation." *)
+| PanicTrue        (* v0: NodeType::True  => unreachable!() *)
+| PanicFalse       (* v0: NodeType::False => unreachable!() *)
+| PanicEmptyOp     (* v0: transform_operation: "Attempt to transform empty operation." *)
 | PanicIndex.      (* nodes_to_literals: node_literals[*node] with *node >= nodes.len() *)
 
 Inductive res (A : Type) :=
@@ -63,11 +69,11 @@ Record tstate := mkTs {
 Definition init_state (n : nat) : tstate := mkTs (Z.of_nat n + 1) [] [] [].
 
 (* transform_operation: returns the literal standing for the operation and the new
-   (tseitin_index, biconditionals, cache) *)
+   (tseitin_index, biconditionals, cache).  `operation.len() == 1` returns the only literal; every
+   other length (0 included: a constant) is looked up in the cache or gets a fresh variable. *)
 Definition transform_operation (op : optype) (lits : list Z) (st : tstate)
   : res (Z * tstate) :=
   match lits with
-  | [] => Fail PanicEmptyOp
   | [l] => Done (l, st)
   | _ =>
     match cache_get (ts_cache st) op lits with
@@ -91,14 +97,17 @@ Definition nodes_to_literals (len : nat) (cs : list nat) (node_literals : list Z
 Definition set_literal (l : Z) (st : tstate) : tstate :=
   mkTs (ts_idx st) (ts_bics st) (ts_lits st ++ [l]) (ts_cache st).
 
+(* `let literal = transform_operation(Operation { op, lits }, ..); node_literals[index] = literal` *)
+Definition step_lits (op : optype) (lits : list Z) (st : tstate) : res tstate :=
+  match transform_operation op lits st with
+  | Fail p => Fail p
+  | Done (l, st') => Done (set_literal l st')
+  end.
+
 Definition step_op (len : nat) (op : optype) (cs : list nat) (st : tstate) : res tstate :=
   match nodes_to_literals len cs (ts_lits st) with
   | Fail p => Fail p
-  | Done lits =>
-    match transform_operation op lits st with
-    | Fail p => Fail p
-    | Done (l, st') => Done (set_literal l st')
-    end
+  | Done lits => step_lits op lits st
   end.
 
 (* the body of `ddnnf.nodes.iter().enumerate().for_each(..)` *)
@@ -107,8 +116,8 @@ Definition step (len : nat) (st : tstate) (nd : ntype) : res tstate :=
   | And cs => step_op len OpAnd cs st
   | Or cs => step_op len OpOr cs st
   | Lit l => Done (set_literal l st)
-  | TrueN => Fail PanicTrue
-  | FalseN => Fail PanicFalse
+  | TrueN => step_lits OpAnd [] st      (* Operation { And, Vec::new() } *)
+  | FalseN => step_lits OpOr [] st      (* Operation { Or, Vec::new() } *)
   end.
 
 Fixpoint run (len : nat) (C : circuit) (st : tstate) : res tstate :=
@@ -147,6 +156,52 @@ Definition to_cnf (C : circuit) (n : nat) : outcome :=
   | Fail p => Panic p
   | Done st =>
     (* "In case only literals were processed, return an empty CNF." (Cnf::default()) *)
+    if ts_idx st =? Z.of_nat n + 1 then Ok (mkCnf 0 [])
+    else Ok (cnf_of_clauses (flat_map clauses_of (ts_bics st) ++ [[ts_idx st - 1]]))
+  end.
+
+(* ---- the code before the repair F20 (only for the witness theorems K5 / K10) ---- *)
+
+Definition transform_operation_v0 (op : optype) (lits : list Z) (st : tstate)
+  : res (Z * tstate) :=
+  match lits with
+  | [] => Fail PanicEmptyOp
+  | _ => transform_operation op lits st
+  end.
+
+Definition step_op_v0 (len : nat) (op : optype) (cs : list nat) (st : tstate) : res tstate :=
+  match nodes_to_literals len cs (ts_lits st) with
+  | Fail p => Fail p
+  | Done lits =>
+    match transform_operation_v0 op lits st with
+    | Fail p => Fail p
+    | Done (l, st') => Done (set_literal l st')
+    end
+  end.
+
+Definition step_v0 (len : nat) (st : tstate) (nd : ntype) : res tstate :=
+  match nd with
+  | And cs => step_op_v0 len OpAnd cs st
+  | Or cs => step_op_v0 len OpOr cs st
+  | Lit l => Done (set_literal l st)
+  | TrueN => Fail PanicTrue
+  | FalseN => Fail PanicFalse
+  end.
+
+Fixpoint run_v0 (len : nat) (C : circuit) (st : tstate) : res tstate :=
+  match C with
+  | [] => Done st
+  | nd :: C' =>
+    match step_v0 len st nd with
+    | Fail p => Fail p
+    | Done st' => run_v0 len C' st'
+    end
+  end.
+
+Definition to_cnf_v0 (C : circuit) (n : nat) : outcome :=
+  match run_v0 (length C) C (init_state n) with
+  | Fail p => Panic p
+  | Done st =>
     if ts_idx st =? Z.of_nat n + 1 then Ok (mkCnf 0 [])
     else Ok (cnf_of_clauses (flat_map clauses_of (ts_bics st) ++ [[ts_idx st - 1]]))
   end.
